@@ -207,7 +207,7 @@ impl Prog {
         if self.entry == "seq" {
             return "call_sequence".to_string();
         }
-        if self.entry == "rand_algo" {
+        if self.entry == "rand_algo" || self.entry == "rand_tree" {
             return "generated_structure".to_string();
         }
         let shape = if self.shape.contiguous() { "contiguous" } else { self.shape.tag() };
@@ -369,13 +369,16 @@ pub const ENTRIES: &[Entry] = &[
     // generated digraph structures (DAGs, several strong components, long chains, stars, layers, unreachable
     // parts, negative and zero weights) under the traversals and algorithms: (x, y, cb, t) encode the seed
     e!("rand_algo", ALL, Args::XY),
+    // generated *user-built* predecessor trees (functional graphs: one cycle through every vertex, a cycle
+    // with tails, self-loops, forests, an out-of-range entry) under search / search_by, target found or not
+    e!("rand_tree", &[L], Args::XY),
 ];
 
 /// The complete catalogue, in a fixed order.
 pub fn catalogue() -> Vec<Prog> {
     let mut out = Vec::new();
     for en in ENTRIES {
-        if en.name == "seq" || en.name == "rand_algo" {
+        if en.name == "seq" || en.name == "rand_algo" || en.name == "rand_tree" {
             for &repr in en.reprs {
                 for &x in &IDS {
                     for &y in &IDS {
@@ -434,7 +437,7 @@ pub fn catalogue() -> Vec<Prog> {
 /// the ones that can be expected to return normally whatever the tree looks like.
 pub fn is_safe_subset(p: &Prog) -> bool {
     let gen = ENTRIES.iter().find(|e| e.name == p.entry).is_some_and(|e| e.args == Args::Gen);
-    (gen || (p.x.in_range() && p.y.in_range())) && p.cb == 0 && p.shape.contiguous() && !p.entry.contains("huge") && p.entry != "seq" && p.entry != "rand_algo"
+    (gen || (p.x.in_range() && p.y.in_range())) && p.cb == 0 && p.shape.contiguous() && !p.entry.contains("huge") && p.entry != "seq" && p.entry != "rand_algo" && p.entry != "rand_tree"
 }
 
 pub fn find(name: &str) -> Option<Prog> {
@@ -1269,6 +1272,11 @@ pub fn body(p: &Prog) -> u64 {
             let yi = IDS.iter().position(|i| *i == p.y).unwrap() as u64;
             rnd::run(p.repr, ((xi * 6 + yi) * 3 + u64::from(p.cb)) * 5 + u64::from(p.t))
         }
+        "rand_tree" => {
+            let xi = IDS.iter().position(|i| *i == p.x).unwrap() as u64;
+            let yi = IDS.iter().position(|i| *i == p.y).unwrap() as u64;
+            rnd::run_tree(((xi * 6 + yi) * 3 + u64::from(p.cb)) * 5 + u64::from(p.t))
+        }
         "prng" => {
             let mut r = Xoshiro256StarStar::new(42);
             let dflt = Xoshiro256StarStar::default();
@@ -1481,11 +1489,13 @@ pub mod seq {
 
     fn pick_id(rng: &mut Rng, g: &G) -> usize {
         let (order, verts): (usize, Vec<usize>) = each!(g, x => (x.order(), x.vertices().take(64).collect()));
-        match rng.below(10) {
+        match rng.below(11) {
             0 => order,
             1 => order + 1,
             2 => 1 << 40,
             3 => usize::MAX,
+            // the largest id whose product with the order still fits a machine word, and its successor
+            10 => usize::MAX / order.max(1) + rng.below(2),
             4 => *verts.last().unwrap_or(&0),
             _ => {
                 if verts.is_empty() {
@@ -1802,6 +1812,59 @@ pub mod rnd {
             }
             acc
         }};
+    }
+
+    /// A user-built predecessor tree drawn from `seed`, searched a few times.
+    pub fn run_tree(seed: u64) -> u64 {
+        let mut rng = Rng::new(0x7EE_0000 ^ seed.wrapping_mul(0x9E37_79B9));
+        let n = match rng.below(6) {
+            0 => rng.range(1, 3),
+            1 => rng.range(17, 40),
+            _ => rng.range(4, 16),
+        };
+        let mut pred: Vec<Option<usize>> = match rng.below(7) {
+            // one cycle through every vertex, in id order or along a random permutation
+            0 => (0..n).map(|i| Some((i + 1) % n)).collect(),
+            1 => {
+                let mut perm: Vec<usize> = (0..n).collect();
+                rng.shuffle(&mut perm);
+                let mut p = vec![None; n];
+                for i in 0..n {
+                    p[perm[i]] = Some(perm[(i + 1) % n]);
+                }
+                p
+            }
+            // a cycle on the first k vertices, the others hang off it in a chain (rho shape)
+            2 => {
+                let k = rng.range(1, n);
+                (0..n).map(|i| Some(if i < k { (i + 1) % k } else { i - 1 })).collect()
+            }
+            // a chain down to a root
+            3 => (0..n).map(|i| i.checked_sub(1)).collect(),
+            // every vertex its own predecessor
+            4 => (0..n).map(Some).collect(),
+            // any functional graph with some roots
+            _ => (0..n).map(|_| if rng.chance(1, 5) { None } else { Some(rng.below(n)) }).collect(),
+        };
+        if rng.chance(1, 8) {
+            // one entry outside the tree (search may panic: caught by the caller)
+            let i = rng.below(n);
+            pred[i] = Some(*rng.pick(&[n, n + 1, 1 << 40, usize::MAX]));
+        }
+        let t = PredecessorTree::from(pred);
+        let mut acc = 0usize;
+        for _ in 0..4 {
+            let s = rng.below(n);
+            let r = rng.below(n);
+            let target = *rng.pick(&[r, n, usize::MAX, s]);
+            acc += match rng.below(4) {
+                0 => t.search(s, target).map_or(0, |w| w.len()),
+                1 => t.search_by(s, |_, _| false).map_or(0, |w| w.len()),
+                2 => t.search_by(s, |_, w| w.is_none()).map_or(0, |w| w.len()),
+                _ => t.search_by(s, |&v, _| v == target).map_or(0, |w| w.len()),
+            };
+        }
+        acc as u64 + t.into_iter().count() as u64
     }
 
     /// Run structure `seed` on representation `repr`; returns a summary value.
